@@ -65,6 +65,15 @@ def cases(tier, inst):
         for db in tiny_domains(2):
             for t in (("cmp", "eq", A(X, "p"), A(Y, "p")), ("cmp", "le", A(X, "q"), A(Y, "p")), None):
                 yield ("vsetof", t, (da, db))
+    # two `the` queries (and an `an`) over ONE variable: the first may stop in the middle of the domain
+    # (MultipleSolutionFound is raised at the second solution); the other must still see the whole domain
+    reps = REPRESENTATIVE_8 if thorough else REPRESENTATIVE_8[:5]
+    for w in grid_worlds(3):
+        if len(w) < (2 if thorough else 3):
+            continue
+        for t1 in reps:
+            for t2 in reps:
+                yield ("pair", (t1, t2), w)
     doms = list(tiny_domains(2))
     for da, db in itertools.product(doms, doms):
         for t in trees_by_depth(XY_REP, 1):
@@ -122,7 +131,60 @@ def observe_the(q, world, inst):
     return out
 
 
+def outcome_of(rows):
+    n = len(set(rows))
+    return ("NoSolution",) if n == 0 else (("value", rows[0]) if n == 1 else ("Multiple",))
+
+
+def run_pair(case, inst):
+    _, (t1, t2), w = case
+    wspec = wspec_of(("entity", None, w))
+
+    def body():
+        from entity_query_language import symbolic_mode, the, an, entity
+        world = build_world(wspec, inst)
+        ref = Q.Ref(world, inst)
+        b = Q.Builder(world, inst)
+        with symbolic_mode():
+            b.declare(VX)
+            x = b.env["x"]
+            q1, q2, qa = the(entity(x, b.cond(t1))), the(entity(x, b.cond(t2))), an(entity(x, b.cond(t2)))
+
+        def run_the(q):
+            try:
+                return ("value", (Q.norm(q.evaluate()),))
+            except MultipleSolutionFound:
+                return ("Multiple",)
+            except NoSolutionFound:
+                return ("NoSolution",)
+            except Exception as e:
+                return exc_obs(e)
+        obs = [run_the(q1), run_the(q2)]
+        try:
+            obs.append(("rows", [(Q.norm(r),) for r in qa.evaluate()]))
+        except Exception as e:
+            obs.append(exc_obs(e))
+        obs += [run_the(q1), run_the(q2)]
+        rows = {t: [(Q.norm(env["x"]),) for env in ref.solutions(("Q", "the", "entity", X, (t,), VX))] for t in (t1, t2)}
+        return obs, rows, len(ref.domain(VX[0]))
+
+    obs, rows, total = run_isolated(body)
+    e1, e2 = outcome_of(rows[t1]), outcome_of(rows[t2])
+    exp = [e1, e2, ("rows", rows[t2]), e1, e2]
+    n1, n2 = len(set(rows[t1])), len(set(rows[t2]))
+    res = {"ok": obs == exp, "nontrivial": n1 >= 2 and 0 < n2, "transitions": 5,
+           "tags": ["kind=pair", f"first={'0' if n1 == 0 else ('1' if n1 == 1 else '>=2')}",
+                    f"solutions={'0' if n2 == 0 else ('1' if n2 == 1 else '>=2')}"],
+           "outcome": f"pair:{e1[0]}->{e2[0]}"}
+    if obs != exp:
+        i = next(i for i, (o, e) in enumerate(zip(obs, exp)) if o != e)
+        res.update(sig=f"pair:step{i + 1}:{obs[i][0]}-instead-of-{exp[i][0]}/after-{e1[0]}", obs=obs, exp=exp)
+    return res
+
+
 def run_case(case, inst):
+    if case[0] == "pair":
+        return run_pair(case, inst)
     q = query_of(case)
     qa = query_of(case, "an")
 
@@ -168,6 +230,13 @@ def run_case(case, inst):
 
 
 def describe(case, inst):
+    if case[0] == "pair":
+        _, (t1, t2), w = case
+        return (Q.up_world(wspec_of(("entity", None, w)), inst) + "\nwith symbolic_mode(): x = let(Item, D); "
+                f"q1 = the(entity(x, {Q.up_cond(t1, inst)})); q2 = the(entity(x, {Q.up_cond(t2, inst)})); "
+                f"qa = an(entity(x, {Q.up_cond(t2, inst)}))\n"
+                "q1.evaluate(); q2.evaluate(); list(qa.evaluate()); q1.evaluate(); q2.evaluate()   # expected: each the "
+                "outcome its own description has (value / NoSolutionFound / MultipleSolutionFound), qa all solutions")
     return (Q.up_world(wspec_of(case), inst) + "\n" + Q.up_query(query_of(case), inst)
             + "\nq.evaluate(); q.evaluate()   # expected (both): the unique solution of an(<same description>) / "
               "NoSolutionFound when none / MultipleSolutionFound when >=2")
